@@ -66,8 +66,8 @@ def run_item(item):
             und = [o for o in obls if o["verdict"] == "UNDECIDED"]
             if und:
                 from pyvc.bounded import bounded_contract
-                b = bounded_contract(c, item.get("seed", 0), n=400 if item.get("tier") == "quick" else 3000,
-                                     budget_s=30 if item.get("tier") == "quick" else 240)
+                b = bounded_contract(c, item.get("seed", 0), n=1200 if item.get("tier") == "quick" else 6000,
+                                     budget_s=75 if item.get("tier") == "quick" else 300)
                 if b["verdict"] == "VIOLATED":
                     failed = (b["replay"].get("failed") or ["bounded"])
                     obls.append(dict(name=f"{item['pid']}:{c.target.replace('btc_hd_wallet.', '')}#bounded.{failed[0]}",
@@ -99,8 +99,11 @@ def run_item(item):
             dflt = 10000 if item.get("tier") == "quick" else 60000
             r = verify_contract(c, timeout_ms=item.get("timeout_ms", max(dflt, getattr(c, "timeout_ms", dflt))), max_paths=item.get("max_paths", 600))
             bad = [o for o in r["obligations"] if o["verdict"] == "REFUTED"]
+            und = [o for o in r["obligations"] if o["verdict"] == "UNDECIDED"]
+            # no refutation AND nothing undecided = the wrong contract was accepted: the engine is vacuous.
+            # no refutation because paths were lost (construct outside the subset on a changed tree) = nothing learnt.
             ob = dict(name=f"{item['pid']}:canary.{item['spec'].split(':')[1]}", kind="canary",
-                      verdict="CANARY_OK" if bad else "CANARY_PASSED_VACUOUS", time=r["wall"], backend="z3",
+                      verdict="CANARY_OK" if bad else ("CANARY_UNDECIDED" if und else "CANARY_PASSED_VACUOUS"), time=r["wall"], backend="z3",
                       refuted=len(bad), total=len(r["obligations"]))
             return dict(item=item, obligations=[ob], meta=dict(target=c.target), wall=time.time() - t0)
         raise ValueError(kind)
@@ -225,7 +228,7 @@ def conclude(pid, tier, seed, P, results, t0, verbose):
     replay_cache = {}
     for o in all_obl:
         v = o["verdict"]
-        if v in ("PROVED", "CANARY_OK", "HELD"):
+        if v in ("PROVED", "CANARY_OK", "CANARY_UNDECIDED", "HELD"):
             continue
         if v == "CANARY_PASSED_VACUOUS":
             errors.append(o)
